@@ -166,7 +166,7 @@ fn fixed_position_part(rep: &mut Report, seed: u64, n: usize, p_eval: usize, and
 pub fn run(tier: &str, seed: u64) -> i32 {
     let thorough = tier == "thorough";
     let mut rep = Report::new("C07", tier, seed, "fault_enumeration");
-    rep.rule = "honest runs over generated circuits with NOT gates (n=2..4, every role) and every adversarial execution of the C03 and C04 catalogues; in each execution the complete transcript (what honest parties sent, what the corrupted party put on the wire) is scanned for each honest party's global key (probe): the key itself at every byte offset in both byte orders, two 16-byte windows (every offset, both orders, mixed) XORing to the key, and (honest n=2 runs) three decoded 128-bit fields XORing to it; in addition, over 64 honest executions of one public configuration no bit at a fixed position of a party's raw traffic may equal or complement a bit of its global key in every execution; freshness: within one message of an honest run no high-entropy 16-byte window occurs twice (base-OT points, OT columns, MACs and rows are blinded per element). distinct = honest configuration (n, evaluator, output set, AND class, features) or (configuration, corrupted party, label, deviation class); non-trivial = a delta probe was recorded and at least one window was scanned".into();
+    rep.rule = "honest runs over generated circuits with NOT gates (n=2..4, every role) and every adversarial execution of the C03 and C04 catalogues; in each execution the complete transcript (what honest parties sent, what the corrupted party put on the wire) is scanned for each honest party's global key (probe): the key itself at every byte offset in both byte orders, two 16-byte windows (every offset, both orders, mixed) XORing to the key, and (honest n=2 runs) three decoded 128-bit fields XORing to it; in addition, over 64 honest executions of one public configuration no bit at a fixed position of a party's raw traffic may equal or complement a bit of its global key in every execution; freshness: within one base-OT / OT-extension / garbled-gates message of an honest run no high-entropy 16-byte window occurs twice (points, columns, corrections and rows are blinded per element). distinct = honest configuration (n, evaluator, output set, AND class, features) or (configuration, corrupted party, label, deviation class); non-trivial = a delta probe was recorded and at least one window was scanned".into();
     rep.assumptions = vec!["XOR sets of size > 3, non-linear leakage and key bits leaked through abort behaviour (KOS selective failure) are not detected".into()];
     let n_honest = if thorough { 1500 } else { 120 };
     let outs = parallel_for(n_honest, threads(), |i| honest(i, seed, thorough));
